@@ -23,7 +23,7 @@ RULE = ("full in-memory stack; byte strings of EVERY length 0..3100 (covering th
 ASSUMPTIONS = ["payloads are published after the client's handshake (incl. its enableBLOB) has been processed",
                "known finding: a payload message longer than the junk threshold on a link whose threshold is enabled is dropped"]
 REQUIRED_EVENTS = ["sessions", "payloads_published", "payloads_uploaded", "payloads_verified", "no_payload_checks", "republished_same_object",
-                   "buffer_process_calls_guarded", "half_way_holds", "following_traffic_checks", "drains_that_waited_for_a_slow_peer", "snooping_client_blob_checks", "routed_messages_checked_for_mutation", "read_handler_backed_blobs_published", "sessions_where_definitions_arrive_between_the_two_connects", "blobs_published_after_the_client_was_restarted"]
+                   "buffer_process_calls_guarded", "half_way_holds", "following_traffic_checks", "drains_that_waited_for_a_slow_peer", "snooping_client_blob_checks", "routed_messages_checked_for_mutation", "read_handler_backed_blobs_published", "sessions_where_definitions_arrive_between_the_two_connects", "blobs_published_after_the_client_was_restarted", "snooping_clients_enabling_blobs_from_a_definition_callback"]
 
 FORMATS = [".fits", "", ".bin", ".é", ".fits.z", ".ÿ<&>"]
 FRAGS = ["1024", "1", "random"]
@@ -129,8 +129,22 @@ async def session(ctx, case):
             # registered BEFORE the remote connections and is handed the very message objects they are serialised from later
             import indi.message as M
             guide = D.build(dict(make_spec(), name="GUIDE"))(router=router)
-            snoop = guide.snoop_device("CAM")
-            snoop.send_message(M.EnableBLOB(device="CAM", value="Also"))
+            if n % 4 == 1:
+                # the guider asks for the camera's frames from its callback for the image property's DEFINITION, and follows that one
+                # property only: its wish is announced while the library is still busy with the first message it ever saw of CAM
+                from indi.client import events as CE
+                snoop = guide.snooping_client
+
+                def want_frames(event, _once=[]):
+                    if event.vector.name == "IMG" and not _once:          # said once, when the property first appears
+                        _once.append(1)
+                        snoop.send_message(M.EnableBLOB(device="CAM", value="Also"))
+                snoop.onevent(callback=want_frames, device="CAM", event_type=CE.DefinitionUpdate)
+                guide.snoop_device("CAM", "IMG")
+                ctx.count("snooping_clients_enabling_blobs_from_a_definition_callback")
+            else:
+                snoop = guide.snoop_device("CAM")
+                snoop.send_message(M.EnableBLOB(device="CAM", value="Also"))
             ctx.count("sessions_with_a_snooping_client_that_enabled_blobs")
         sess = stack.Session(router, seed=n, mode_c2s=case["frag"], mode_s2c=case["frag"])
         if direction == "d2c-single":
